@@ -170,7 +170,7 @@ theorem execute_cases (s : St) (i : Nat) (cb : Callback) (acc' full' : Bytes) :
     cases hf : cb.fnErr
     · right
       cases hc : cb.complete
-      · right; exact ⟨ho, rfl, rfl, by simp only [execute, hx, hf, hc, nextSt, Bool.false_eq_true, if_false, if_true]⟩
+      · right; exact ⟨ho, rfl, rfl, by simp only [execute, hx, hf, hc, nextSt, Bool.false_eq_true, if_false]⟩
       · left; exact ⟨ho, rfl, rfl, by simp only [execute, hx, hf, hc, nextSt, Bool.false_eq_true, if_false, if_true]⟩
     · left; exact ⟨ho, rfl, by simp only [execute, hx, hf, nextSt, Bool.false_eq_true, if_false, if_true]⟩
 
